@@ -529,9 +529,9 @@ PROPS["C16"]["bounds"] += "; abstract (ghost FAT): free-space record after trunc
 PROPS["C16"]["outside"] = "record arithmetic of alloc_cluster (saturating decrement; only totality of the alloc instances); 'since mount' accounting over histories;" + _st
 PROPS["C17"]["bounds"] += "; listing level (abstract: LfnBuffer ops stubbed): iterate_dir_lfn over 5 fully symbolic directory slots against a spec-side run tracker (complete, descending, 0x40-started run with matching checksum directly before the entry)"
 PROPS["C17"]["outside"] = PROPS["C17"]["outside"] + "; directories with more than 5 non-empty slots at the listing level;" + _st
-PROPS["C07"]["bounds"] += "; file_is_open identity on a fully symbolic on-disk entry; limit refusals happen before any side effect (C08 harness)"
+PROPS["C07"]["bounds"] += "; file_is_open identity on a fully symbolic on-disk entry; table-full refusals write nothing and leave the tables unchanged (C08 harness and c07_full_table_refused_*); read-only-attribute file in the truncating / create-or modes and table-full refusals additionally with truncate_cluster_chain / write_new_directory_entry / write_entry_to_disk (and, for table-full, find_directory_entry) replaced by counting stubs that must not be reached"
 PROPS["C12"]["bounds"] += "; response delay of exactly N_CR = 8 bytes"
-PROPS["C13"]["bounds"] += "; identification failing at CMD58 with any R1 error bits; 2-block read with a CRC mismatch in the first block (thorough)"
+PROPS["C13"]["bounds"] += "; identification failing at CMD58 with any R1 error bits; 2-block read with a CRC mismatch in the first block (any non-zero xor; card memory concrete in the quick tier, symbolic in the thorough tier)"
 PROPS["C14"]["bounds"] += "; commands (and the CMD55 prefix) issued while the card is still busy from a previous operation"
 
 # ---------------------------------------------------------------------------
